@@ -98,7 +98,7 @@ func Inject(lines []Line, sp Spelling, inj Injection) (out []Line, row string, o
 		prev := lines[idx[inj.Line-1]]
 		extra := 1 + inj.Variant%2
 		depth := prev.Level + 1 + extra - 1 // indent units for level prev.Level+1+extra
-		if sp.Heading {
+		if sp.Heading && l.Root >= sp.HeadingFrom {
 			depth--
 		}
 		if depth < 1 {
